@@ -1,5 +1,7 @@
 import Updog.Basic.Bytes
 import Updog.Basic.XXHash
-import Updog.Model.Index
-import Updog.Spec.Sat
-import Updog.Props.C01
+import Updog.Generated
+import Updog.Oracle.Idx
+import Updog.Oracle.Lru
+import Updog.Oracle.Parse
+import Updog.Oracle.Fs
